@@ -573,7 +573,13 @@ class F:
         if diff.is_const():
             c = diff.const_value()
             return {'<': c < 0, '<=': c <= 0, '>': c > 0, '>=': c >= 0, '==': c == 0, '!=': c != 0}[rel]
-        return SymBool('cmp', diff, rel)
+        sb = SymBool('cmp', diff, rel)
+        # inside the library under test a scalar comparison stands where NumPy would produce np.bool_ (usable as an index / mask):
+        # decide it at once (fork); harness code keeps the lazy symbolic boolean to build goals
+        fr = sys._getframe(2)
+        if 'geometry_tools' in fr.f_code.co_filename and 'site-packages' not in fr.f_code.co_filename:
+            return np.bool_(bool(sb))
+        return sb
 
     def __lt__(s, o): return s._cmp(o, '<')
     def __le__(s, o): return s._cmp(o, '<=')
